@@ -354,6 +354,24 @@ def api_job(job):
         for key, msg, c in check_relations(acc, fam, tname, payload, d):
             acc.fail(key.replace("C13|%s|" % fam, "C13|%s|api|" % fam) if False else key, "[read_runtime_data] " + msg, case)
         if fam in ("ET", "DT"):
+            # capability histories: optional blocks are refused (ILLEGAL DATA ADDRESS) for two polls, then served again - every result
+            # of the history, whatever the object has learned meanwhile, must still satisfy the relations among its own values
+            from goodwe.exceptions import InverterError
+            ranges = siminv.ET_REFUSE_RANGES if fam == "ET" else siminv.DT_REFUSE_RANGES
+            names = sorted(ranges)
+            picked = [n for j, n in enumerate(names) if (k >> j) & 1] or names[k % len(names):][:1]
+            saved = list(sim.refused)
+            for phase in ("refused", "refused", "served", "served"):
+                sim.refused = saved + ([ranges[n] for n in picked] if phase == "refused" else [])
+                try:
+                    dh = run_sync(inv.read_runtime_data())
+                except InverterError:
+                    continue
+                acc.case()
+                acc.nontrivial("api-history", fam, k, seed, phase, tuple(picked))
+                for key, msg, c in check_relations(acc, fam, tname, payload, dh):
+                    acc.fail(key, "[read_runtime_data, blocks %s %s] %s" % (picked, phase, msg), dict(case, history=[picked, phase]))
+            sim.refused = saved
             # the same label/code pairs fetched one by one (read_sensor) from the unchanged registers
             want_ids = [i for lid, (cid, _t) in LABELS[fam].items() for i in (lid, cid) if lid in d and cid in d]
             d1 = {}
